@@ -128,6 +128,9 @@ fn main() -> miette::Result<()> {
         )
     }))?;
 
+    // `-f` given before a subcommand applies to it as well, rather than being silently dropped
+    let global_features = args.run_options.features;
+
     match args.command {
         None => {
             if let Some(path) = args.path {
@@ -146,7 +149,7 @@ fn main() -> miette::Result<()> {
             minimal,
             run_options: RunOptions { features },
         }) => {
-            lace::features::init(features);
+            lace::features::init(features.union(global_features));
             run(&name, None, minimal)
         }
         Some(Command::Debug {
@@ -157,7 +160,7 @@ fn main() -> miette::Result<()> {
             print_help,
         }) => match (name, print_help) {
             (Some(name), false) => {
-                lace::features::init(features);
+                lace::features::init(features.union(global_features));
                 run(&name, Some(debugger::Options { command }), minimal)
             }
             (None, true) => {
@@ -173,7 +176,7 @@ fn main() -> miette::Result<()> {
             dest,
             run_options: RunOptions { features },
         }) => {
-            lace::features::init(features);
+            lace::features::init(features.union(global_features));
             file_message(Green, "Assembling", &name);
             let contents = StaticSource::new(fs::read_to_string(&name).into_diagnostic()?);
             let air = assemble(&contents)?;
@@ -205,7 +208,7 @@ fn main() -> miette::Result<()> {
             name,
             run_options: RunOptions { features },
         }) => {
-            lace::features::init(features);
+            lace::features::init(features.union(global_features));
             file_message(Green, "Checking", &name);
             let contents = StaticSource::new(fs::read_to_string(&name).into_diagnostic()?);
             let _ = assemble(&contents)?;
@@ -217,7 +220,7 @@ fn main() -> miette::Result<()> {
             name,
             run_options: RunOptions { features },
         }) => {
-            lace::features::init(features);
+            lace::features::init(features.union(global_features));
             if !name.exists() {
                 bail!("File does not exist. Exiting...")
             }
